@@ -1,5 +1,6 @@
 import ArgMapper.Driver.SigD
 import ArgMapper.Model.Reach
+import ArgMapper.Model.Hist
 import ArgMapper.Model.Gens
 import ArgMapper.Props.C07b
 import ArgMapper.Spec.Match
@@ -319,7 +320,7 @@ def replayRun (fl : Flags) (sc : Scn) (b : Builder) (cgr : CallGraphResult) (tar
                      memoCopy := fl.memoCopy, publishAfterUpdate := fl.publishAfterUpdate,
                      trackReaching := fl.trackReaching, takeValuedNamed := fl.takeValuedNamed,
                      skipRecordsInput := fl.skipRecordsInput, hopCopies := fl.hopCopies, auto := auto }
-  let (o, st) := callWith ctx cgr target (fuelFor sc) { initSt cgr.cg memo0 items with count := count0 }
+  let (o, st) := histCall ctx cgr target (fuelFor sc) { memo := memo0, count := count0 } items
   let ires := resOf evs
   -- the unsatisfied error of a call without any input or converter carries empty lists
   let rep := !b.named.isEmpty || !b.namedSub.isEmpty || !b.typed.isEmpty || !b.typedSub.isEmpty || !b.convs.isEmpty
